@@ -1425,6 +1425,59 @@ class _Impl:
             'empty_tuple': '"t": []' in json.dumps(wire(spec)),
             'empty_fixed_tuple': '["tuplef", []' in json.dumps(wire(spec))}
 
+  # -- callables of every origin -------------------------------------------------------------
+  PLAIN_FN = ('module-def', 'module-lambda', 'class-body-def', 'class-body-lambda', 'nested-def', 'nested-lambda')
+
+  def callable_case(self, case):
+    pg = self.pg
+    origin, wrap = case['origin'], case['wrap']
+    f = self.mod.CALLABLES[origin]
+    if wrap == 'leaf':
+      v, fields = pg.Dict(f=f, k=1), [('f', origin)]
+    elif wrap == 'list':
+      v, fields = pg.Dict(f=pg.List([1, f])), [('f', origin)]
+    elif wrap == 'field':
+      v, fields = self.mod.FD(fn=f, x=1), [('fn', origin)]
+    else:     # the unchanged defaults of the class: a module lambda, a module def, a class-body lambda
+      v, fields = self.mod.FD(), [('fn', 'module-lambda'), ('gn', 'module-def'), ('hn', 'class-body-lambda')]
+
+    def pick(x, name):
+      r = x.sym_getattr(name) if isinstance(x, pg.Object) else x[name]
+      return r[1] if isinstance(r, list) else r
+
+    def behave(g):
+      return self.attempt(lambda: g('abc') if g is len or getattr(g, '__name__', '') == 'len' else g(3))
+
+    j = self.attempt(lambda: pg.to_json(v))
+    if 'err' in j:
+      return {'problems': ['to_json raises %s' % j['err']], 'model': None}
+    model = {}
+    for name, org in fields:
+      node = j['ok'][name]
+      node = node[1] if isinstance(node, list) else node
+      if org in self.PLAIN_FN:
+        model[org] = isinstance(node, dict) and 'code' in node
+    problems = []
+    path = '/mem/c05_callable/value.json'
+    for form, g in (('obj', lambda: pg.from_json(pg.to_json(v))),
+                    ('str', lambda: pg.from_json_str(pg.to_json_str(v))),
+                    ('save-load', lambda: (pg.save(v, path), pg.load(path))[1])):
+      res = self.attempt(g)
+      if 'err' in res:
+        problems.append('[%s] raises %s' % (form, res['err']))
+        continue
+      r = res['ok']
+      if type(r) is not type(v):
+        problems.append('[%s] type' % form)
+        continue
+      for name, org in fields:
+        a, b = pick(v, name), pick(r, name)
+        if behave(a) != behave(b):
+          problems.append('[%s] %s behaves differently after the round trip' % (form, name))
+        elif org in ('module-def', 'class-body-def', 'builtin', 'classmethod') and not (a == b):
+          problems.append('[%s] %s is not the same function' % (form, name))
+    return {'problems': problems, 'model': model}
+
   # -- DNA ---------------------------------------------------------------------------------------
   def py_nest(self, n):
     if isinstance(n, dict):
@@ -1686,7 +1739,7 @@ class C05(Prop):
   id = 'C05'
   props_modules = ['PgProps.C05']
   driver = 'drv_c05'
-  translators = [t_c05.run]
+  translators = [t_c05.run, t_c05.run_fn]
   case_timeout_s = 30
   rule = ('codec: values generated as trees (leaves None/bool/small+big ints/float tokens incl. inf,-0.0,nan/'
           'strings with control, non-BMP and marker-like text; pg.List, tuples, pg.Dict with str and int keys, '
@@ -1791,6 +1844,12 @@ class C05(Prop):
       yield gen_dna_case(rng)
     for i in range(400 if quick else 12000):
       yield gen_vspec_case(rng)
+    origins = ['module-def', 'module-lambda', 'class-body-lambda', 'class-body-def', 'nested-def', 'nested-lambda',
+               'builtin', 'classmethod', 'partial']
+    for origin in origins:                       # small and exhaustive: every origin in every position
+      for wrap in ('leaf', 'list', 'field'):
+        yield {'kind': 'callable', 'origin': origin, 'wrap': wrap}
+    yield {'kind': 'callable', 'origin': 'module-lambda', 'wrap': 'default'}
     for i in range(200 if quick else 6000):
       what = rng.weighted([(4, 'hyper'), (4, 'dnaspec'), (2, 'diff'), (2, 'functor')])
       if what in ('hyper', 'dnaspec'):
@@ -1853,6 +1912,8 @@ class C05(Prop):
       return im.vspec(case)
     if k == 'dyn':
       return im.dyn(case)
+    if k == 'callable':
+      return im.callable_case(case)
     raise AssertionError(k)
 
   def model_request(self, case):
@@ -1866,6 +1927,8 @@ class C05(Prop):
         req['hide_frozen'] = case['opts']['hide_frozen']
         req['hide_default_values'] = case['opts']['hide_default_values']
       return req
+    if k == 'callable':
+      return {'op': 'fn'}
     if k == 'dyn':
       self.setup_impl()
       im = C05._impl
@@ -1916,6 +1979,13 @@ class C05(Prop):
 
   def compare(self, case, impl_out, model_out):
     k = case['kind']
+    if k == 'callable':
+      if impl_out.get('model') is None:
+        return None
+      for org, by_code in impl_out['model'].items():
+        if model_out.get(org) != by_code:
+          return 'function of origin %s: written by code = %s, model says %s' % (org, by_code, model_out.get(org))
+      return None
     if k == 'dyn':
       case = {'value': impl_out['wire'], 'kind': 'codec'}
       k = 'codec'
@@ -1987,6 +2057,12 @@ class C05(Prop):
     k = case['kind']
     if k == 'dyn':
       return self.oracle({'kind': 'codec', 'value': out['wire'], 'ap': False}, out)
+    if k == 'callable':
+      if out['problems']:
+        return {'signature': 'callable:%s:%s' % (case['origin'] if case['wrap'] != 'default' else 'field-default',
+                                                  out['problems'][0].split('] ')[-1].split(' raises')[0][:40]),
+                'what': 'callable %s as %s: %s' % (case['origin'], case['wrap'], '; '.join(out['problems']))}
+      return None
     if k == 'codec':
       if 'build_error' in out:
         return None
@@ -2258,7 +2334,7 @@ class C05(Prop):
       return isinstance(case['nest'], dict) and 'q' not in case['nest']
     if k == 'vspec':
       return 'extra' in case or case['desc']['k'] in ('list', 'tuple', 'dict', 'union')
-    if k == 'dyn':
+    if k in ('dyn', 'callable'):
       return True
     if k in ('store', 'hstore'):
       ops = case['ops']
@@ -2305,6 +2381,8 @@ class C05(Prop):
     elif k in ('load', 'load_str'):
       rt = out['model']['rt']
       h.append('%s%s:%s' % (k, '+auto_dict' if case.get('auto_dict') else '', 'ok' if 'ok' in rt else rt['err']))
+    elif k == 'callable':
+      h.append('callable:%s:%s' % (case['origin'], case['wrap']))
     elif k == 'dyn':
       h.append('dyn:' + case['what'])
       if 'model' in out:
